@@ -83,6 +83,7 @@ SampleClauses(e) == SeedClauses(e) \cup {
   <<Q("AtMostRequested", "AtMostRequestedObs"), cur.fam \in NFams => e.cnt <= cur.n>>,
   <<"UnitShape", e.ugrid => Shape(e.u, e.cnt, Dim)>>,
   <<Q("UnitCube", "UnitCubeObs"), UnitCubeLogged(e)>>,
+  <<"Structure", e.ugrid /\ Shape(e.u, e.cnt, Dim) /\ e.cnt >= 1 => StructureOK(cur.fam, cur.n, Dim, cur.p, e.u)>>,
   <<"Deterministic", SampleKey(e) \in DOMAIN memo => memo[SampleKey(e)].u = e.uid>> }
 SampleConform(e) == Sample(e.calls, e.cnt, IF e.ugrid THEN e.u ELSE <<>>, e.uid, ~e.ugrid)
 SampleResync(e) ==
@@ -96,7 +97,8 @@ SampleResync(e) ==
 FailClauses(e) == SeedClauses(e) \cup {
   <<"Protocol", pc = "begun">>,
   \* an exception on an operation the specification allows
-  <<"RejectRule", ~SettingsValid(cur.fam, cur.n, cur.p) \/ ~Accepts(cur.fam, cur.n, Dim, cur.p) \/ cur.inj>> }
+  <<"RejectRule", \/ ~SettingsValid(cur.fam, cur.n, cur.p) \/ ~Accepts(cur.fam, cur.n, Dim, cur.p)
+                  \/ MayReject(cur.fam, cur.p) \/ cur.inj>> }
 \* (a sampler reached with settings the model calls invalid raises like a rejected (n, d))
 FailResync(e) ==
   /\ cur' = [cur EXCEPT !.calls = e.calls, !.used = e.used]
@@ -104,11 +106,12 @@ FailResync(e) ==
   /\ flag' = e.flag
   /\ pc' = "failed"
   /\ UNCHANGED <<sp, memo, ncalls>>
-FailConform(e) == IF SettingsValid(cur.fam, cur.n, cur.p) THEN SampleFail(e.calls) ELSE FailResync(e)
+FailConform(e) == IF SettingsValid(cur.fam, cur.n, cur.p) /\ (~Accepts(cur.fam, cur.n, Dim, cur.p) \/ cur.inj)
+                  THEN SampleFail(e.calls) ELSE FailResync(e)
 
 \* the call raised before the sampler hook was reached
 EarlyClauses(e) == {
-  <<"RejectRule", pc = "done" \/ ~SettingsValid(cur.fam, cur.n, cur.p)>> }     \* "done": Refuse was enabled
+  <<"RejectRule", pc = "done" \/ ~SettingsValid(cur.fam, cur.n, cur.p) \/ MayReject(cur.fam, cur.p)>> }     \* "done": Refuse was enabled
 EarlyConform(e) == IF pc = "done" THEN UNCHANGED vars ELSE EarlyReject     \* "done": already Refused
 EarlyResync(e) == /\ pc' = "failed" /\ UNCHANGED <<dflt, flag, sp, cur, memo, ncalls>>
 
@@ -151,7 +154,9 @@ EndFailClauses(e) == {
   <<"RejectRule", pc \in {"failed", "done"} \/ ~UnitCubeHeld>>,
   <<"IntNormRestored", e.flag = cur.saved>>,
   <<"SeederState", e.dflt = cur.d0 + cur.calls>> }
-EndFailConform(e) == IF pc = "done" THEN UNCHANGED vars ELSE Raise
+EndFailConform(e) == IF pc = "failed" THEN Raise
+                     ELSE IF pc = "done" THEN UNCHANGED vars      \* refused by execute()
+                     ELSE EndResync(e)                            \* raised after sampling outside the unit cube
 
 \* ---------------------------------------------------------------- stepping
 Clauses(e) ==
